@@ -4,7 +4,7 @@ from lzlint.framework import rule
 from lzlint.core import (Prov, Callee, callee_of, strip_generics, last_seg, expr_walk, expr_str, op_local, op_place,
                          const_val, guards_of, norm_cmp, switch_edges, self_field_of, reachable_without_edge)
 from lzlint.byteeval import ByteEval, fold, Unknown
-from rules.units import methods_of, self_field_stores, mentions_self_field
+from rules.units import methods_of, self_field_stores, mentions_self_field, _pulls
 
 READER_PARSE_ADTS = ('XZReader', 'StreamHeader', 'BlockHeader', 'Index', 'StreamFooter', 'LZIPReader', 'LZIPHeader',
                      'LZIPTrailer', 'LZIPReaderMT')
@@ -115,7 +115,7 @@ def stream_reset(ctx):
                 continue
             for h in F.resolve_callee(c):
                 if h.self_adt == g.self_adt and h.path != g.path and h.d.get('output', '').startswith('std::result::Result<bool') and \
-                        any(c2.trait and last_seg(c2.trait) == 'Read' for _, _, c2 in h.calls()) and h not in cands:
+                        _pulls(F, h, set()) and h not in cands:
                     cands.append(h)
     if not cands:
         return ctx.anchor_missing('XZReader next-stream detector (Result<bool>, loops, parses a header)')
@@ -154,6 +154,39 @@ def stream_reset(ctx):
         else:
             ctx.violation('%s:per-stream-state-reset' % f.key, f.loc(ob), 'per-stream state (header, block counter) is not '
                           're-initialised on the success path (only %s)' % names)
+    # "no further stream" exits: once padding bytes were counted, Ok(false) also needs padding % 4 == 0
+    rem_blocks = []
+    for sb in f.reachable:
+        t = f.blocks[sb]['term']
+        if t['k'] == 'switch':
+            cond = prov.operand(t['discr'], 0, '%d:T' % sb)
+            if any(x[0] == 'bin' and x[1] == 'Rem' and x[3][0] == 'const' and x[3][2] == 4 for x in expr_walk(cond)):
+                rem_blocks.append(sb)
+    inc_blocks = []
+    pad_local = None
+    for sb in rem_blocks:
+        cond = prov.operand(f.blocks[sb]['term']['discr'], 0, '%d:T' % sb)
+        for x in expr_walk(cond):
+            if x[0] == 'bin' and x[1] == 'Rem' and x[2][0] == 'local':
+                pad_local = x[2][1]
+    if pad_local is not None:
+        inc_blocks = [bi for (bi, si, k, node) in f.whole_defs(pad_local) if k == 'assign' and f.in_loop(bi)]
+    okfalse = []
+    for bi, b in enumerate(f.blocks):
+        for si, st_ in enumerate(b['stmts']):
+            if st_['k'] == 'assign' and st_['lhs']['l'] == 0 and st_['rv']['r'] == 'agg' and st_['rv'].get('variant_name') == 'Ok':
+                v = prov.operand(st_['rv']['ops'][0], 0, '%d:%d' % (bi, si))
+                if v[0] == 'const' and v[2] in (0, False):
+                    okfalse.append(bi)
+    if inc_blocks and okfalse:
+        key = '%s:trailing-padding-multiple-of-4' % f.key
+        reach = f.reach_from([x for ib in inc_blocks for x in f.succs(ib)], stop=set(rem_blocks))
+        bad = [b for b in okfalse if b in reach]
+        if bad:
+            ctx.violation(key, f.loc(bad[0]), 'after stream padding bytes were counted the detector can report "no further stream" (Ok(false)) '
+                          'without testing padding %% 4 == 0: 1, 2, 3, 5.. zero bytes after the last stream are accepted at end of input')
+        else:
+            ctx.ok(key, f.loc(okfalse[0]), 'Ok(false) after counted padding passes the padding %% 4 test')
 
 
 # --------------------------------------------------------------------------- GUARD-COMPARE (C04)
